@@ -10,10 +10,11 @@ for line in open(os.path.join(HERE, "seeded", "RESULTS.md")):
             rows[c[0]] = c
 out = []
 out.append("### 10.5 Seeded defects: which checks catch which changes\n")
-out.append("Six rounds of fresh sub-agents (round 1: 2 changes for each of the 18 properties; round 2: 3 \"harder\" "
+out.append("Seven rounds of fresh sub-agents (round 1: 2 changes for each of the 18 properties; round 2: 3 \"harder\" "
            "changes for 15 properties; rounds 3 and 4: two-site changes; round 5: 3 changes each for the contract-style "
            "properties, told to avoid the obvious site; round 6: 3 changes each for the scheduler properties, told which "
-           "mechanisms earlier rounds had already used) got only the text of one property and a scratch "
+           "mechanisms earlier rounds had already used; round 7: the contract-style and fault properties again, with the list "
+           "of mechanisms to avoid) got only the text of one property and a scratch "
            "worktree; every kept change was re-verified here (patch applies to the current /repo HEAD, the 233 tests pass "
            "with it, the demonstration fails with it and passes without it) and lives in `seeded/<id>/` (`patch.diff`, "
            "`demo.py`, `notes.md`, `meta.json`). `seeded/own-*` is the own catalogue of section 7. `tools/run_mutant.sh` "
@@ -33,7 +34,11 @@ out.append("Checks that were *strengthened because they missed a change* (each m
            "types, grandchildren), C08 (the derived operators `<=`, `>=`, `!=`), C13 (real-time mode with a simulator "
            "that queues steps for itself through `set_event()` before the malformed reply); round 6: C03 (persistent outputs "
            "announced for a later time, constant offset). After round 5 C14 got a second, generated in-process class, which "
-           "found F28.\n")
+           "found F28; round 7: C15 (classes from a factory: same module and qualified name, other signatures), C11 (input kinds "
+           "from type defaults and `any_inputs`, one `initial_data` dict reused, one source attribute to two destination "
+           "attributes), C12 (several starts from one `sim_config` entry with different descriptions, old API versions with a "
+           "declared type), C14 (an agent asking several sources in one asynchronous `get_data`), C06 (`run()` a second time on "
+           "a rejected world).\n")
 out.append("| seeded defect | origin | checks run -> verdict | what it is |")
 out.append("|---|---|---|---|")
 n = caught = 0
